@@ -651,7 +651,7 @@ static Outcome evaluate(const Plan& p, bool count = true, bool keep_log = false)
       for (auto& op : p.tasks[0].ops) {
         if (pos2 >= o.res[0].size()) break;
         const OpResult& got = o.res[0][pos2++];
-        if (!op.selfc || op.fail || !got.done || got.fault_fired) continue;
+        if (!(op.selfc || op.kind == OK_Q || op.kind == OK_S2A || op.kind == OK_ATOMFAC) || op.fail || !got.done || got.fault_fired) continue;
         if (op.kind == OK_DEPRECATED || op.kind == OK_INIT) continue;
         Op k = op; k.id = 0; k.probe = 0;
         std::string key = op_to_text(k);
